@@ -17,6 +17,8 @@ import (
 //	                               and a non-constant on the right
 //	x = x OP e    ->  x OP= e      (also  x = e + x  ->  x += e  for + and *)
 //	x += 1        ->  x++          (and x -= 1 -> x--), x an identifier
+//	(x)           ->  x            around operands that need no parentheses
+//	v := E; return v -> return E   when v is used nowhere else
 //
 // Only operands are exchanged and operator tokens changed; every node keeps
 // its identity, so types.Info stays valid. Both rewrites preserve meaning for
@@ -76,10 +78,76 @@ func normalize(pk *packages.Package) {
 				}
 				switch {
 				case sameIdent(x.Lhs[0], be.X):
-					x.Tok, x.Rhs = tok, []ast.Expr{be.Y}
+					x.Tok, x.Rhs = tok, []ast.Expr{ast.Unparen(be.Y)}
 				case (be.Op == token.ADD || be.Op == token.MUL) && sameIdent(x.Lhs[0], be.Y):
-					x.Tok, x.Rhs = tok, []ast.Expr{be.X}
+					x.Tok, x.Rhs = tok, []ast.Expr{ast.Unparen(be.X)}
 				}
+			}
+			return true
+		})
+		// (x) -> x for operands that need no parentheses
+		astutil.Apply(f, nil, func(c *astutil.Cursor) bool {
+			pe, ok := c.Node().(*ast.ParenExpr)
+			if !ok {
+				return true
+			}
+			switch pe.X.(type) {
+			case *ast.Ident, *ast.BasicLit, *ast.SelectorExpr, *ast.CallExpr, *ast.IndexExpr, *ast.ParenExpr, *ast.CompositeLit:
+				if tv, has := info.Types[pe]; has {
+					info.Types[pe.X] = tv
+				}
+				c.Replace(pe.X)
+			}
+			return true
+		})
+		// v := E; return v  ->  return E   (v used nowhere else)
+		uses := map[types.Object]int{}
+		ast.Inspect(f, func(n ast.Node) bool {
+			if id, ok := n.(*ast.Ident); ok {
+				if o := info.Uses[id]; o != nil {
+					uses[o]++
+				}
+			}
+			return true
+		})
+		ast.Inspect(f, func(n ast.Node) bool {
+			blk, ok := n.(*ast.BlockStmt)
+			if !ok {
+				return true
+			}
+			for i := 0; i+1 < len(blk.List); i++ {
+				ret, ok := blk.List[i+1].(*ast.ReturnStmt)
+				if !ok || len(ret.Results) != 1 {
+					continue
+				}
+				rid, ok := ret.Results[0].(*ast.Ident)
+				if !ok {
+					continue
+				}
+				var def *ast.Ident
+				var val ast.Expr
+				switch d := blk.List[i].(type) {
+				case *ast.AssignStmt:
+					if d.Tok == token.DEFINE && len(d.Lhs) == 1 && len(d.Rhs) == 1 {
+						def, _ = d.Lhs[0].(*ast.Ident)
+						val = d.Rhs[0]
+					}
+				case *ast.DeclStmt:
+					if gd, ok := d.Decl.(*ast.GenDecl); ok && gd.Tok == token.VAR && len(gd.Specs) == 1 {
+						if vs := gd.Specs[0].(*ast.ValueSpec); len(vs.Names) == 1 && len(vs.Values) == 1 {
+							def, val = vs.Names[0], vs.Values[0]
+						}
+					}
+				}
+				if def == nil || val == nil {
+					continue
+				}
+				o := info.Defs[def]
+				if o == nil || info.Uses[rid] != o || uses[o] != 1 {
+					continue
+				}
+				ret.Results[0] = val
+				blk.List = append(blk.List[:i], blk.List[i+1:]...)
 			}
 			return true
 		})
